@@ -1,4 +1,5 @@
 import CG.Proofs.Writer
+import CG.Generated.WriteSites
 /-!
 # C15 — Serialisation is correct for writers that accept partial writes
 
@@ -145,6 +146,36 @@ theorem C15_raw_fails_on_interrupt :
     (runOps (limited [0]) [.raw [1, 2, 3]]).1 = .err "IoInterrupted" ∧
     (runOps (limited [0]) [.all [1, 2, 3]]) = (.ok (), { buf := [1, 2, 3], log := [3, 3] }) := by
   constructor <;> rfl
+
+/-! ### The hypothesis `∀ op ∈ ops, op.isAll`, read off the source
+
+`CG.Generated.WriteSites.sites` is rewritten on every run from `/repo/src` (`checks/srcscan.py`): one entry
+per method call made on an `io::Write` parameter in non-test code, with its kind (0 `write_all`,
+1 byteorder integer write = `write_all` of a fixed array, 2 `write_fmt`, 3 `flush`, 4 a bare
+`write`/`write_vectored`).  The serialisers of the crate are compositions of exactly these calls
+(delegation to another `write(writer)` contributes that function's own sites). -/
+
+/-- the write operation a source site of kind `k` performs on payload `b` -/
+def siteOp (k : Nat) (b : Bytes) : WOp := if k = 4 then .raw b else .all b
+
+/-- **No serialiser of the current tree makes a bare `write` call on its destination.** -/
+theorem C15_source_has_no_bare_write : ∀ s ∈ Generated.WriteSites.sites, s.2.2 ≠ 4 := by decide
+
+/-- … hence ANY sequence of calls drawn from the source's write sites, with any payloads, under ANY
+    partial-write schedule, returns `Ok(())` having delivered exactly what a memory buffer receives. -/
+theorem C15_source_sites_deliver (calls : List ((Nat × Nat × Nat) × Bytes))
+    (hsrc : ∀ c ∈ calls, c.1 ∈ Generated.WriteSites.sites) (sched : List Nat) :
+    let ops := calls.map (fun c => siteOp c.1.2.2 c.2)
+    ∃ dl dm, runOps (limited sched) ops = (.ok (), dl) ∧ runOps memory ops = (.ok (), dm) ∧
+      dl.buf = dm.buf ∧ dm.buf = flatten ops := by
+  intro ops
+  apply C15_schedule_independent
+  intro op hop
+  obtain ⟨c, hc, rfl⟩ := List.mem_map.mp hop
+  have := C15_source_has_no_bare_write c.1 (hsrc c hc)
+  simp [siteOp, this, WOp.isAll]
+
+example : 0 < Generated.WriteSites.sites.length := by decide
 
 /-! Non-vacuity: concrete schedules, with limits, interruptions and both kinds of tail. -/
 example : (writeAll (limited [2, 0, 0, 1, 5]) [1, 2, 3, 4, 5, 6]).2.buf = [1, 2, 3, 4, 5, 6] := by decide
